@@ -145,15 +145,8 @@ def run(ctx, prog):
     ctx.rule('C03-D2', 'every CPA/DPA _compute depending on a division maps inf -> NaN before returning')
     ctx.rule('C03-D3', 'axis-label typing of CPA/DPA accumulation and compute: labels of +=, broadcasting, contraction and the returned (words, samples) layout are consistent')
     ctx.assume('the numeric value of the statistic (Pearson r, difference of means) is not decided; that an undefined entry is never *finite* depends on float cancellation and is not decided')
-    from .. import inline as _inl
     from .. import universe as _uni
-    _dm = prog.need_class(*_uni.DIST_BASE)
-    for _m in ('update', 'compute'):
-        _f = _dm.methods.get(_m)
-        if _f is not None:
-            _h = _inl.inline_in_place(prog, _f, skip={'_check', '_update', '_initialize', '_compute', '_accumulate', '_initialize_accumulators'})
-            if _h:
-                ctx.note(f'{_f.key}: helpers inlined before analysis: {_h}')
+    _uni.inline_base_entry_points(ctx, prog)
     d1(ctx, prog)
     n = d2(ctx, prog, 'C03-D2', {'scared.distinguishers.cpa', 'scared.distinguishers.dpa'})
     ctx.floor('_compute functions with divisions (CPA/DPA)', n, 3)
